@@ -247,6 +247,11 @@ func onRuleUpdate(rawResRulesMap map[string][]*Rule) (err error) {
 				logging.Warn("[CircuitBreaker onRuleUpdate] Ignoring invalid circuit breaking rule when loading new rules", "rule", rule, "err", err.Error())
 				continue
 			}
+			if _, supported := cbGenFuncMap[rule.Strategy]; !supported {
+				// no breaker can be built for it: it must not be reported as loaded either
+				logging.Warn("[CircuitBreaker onRuleUpdate] Ignoring the rule due to unsupported circuit breaking strategy", "rule", rule)
+				continue
+			}
 			validResRules = append(validResRules, rule)
 		}
 		if len(validResRules) > 0 {
@@ -299,6 +304,12 @@ func onResourceRuleUpdate(res string, rawResRules []*Rule) (err error) {
 	for _, rule := range rawResRules {
 		if err := IsValidRule(rule); err != nil {
 			logging.Warn("[CircuitBreaker onResourceRuleUpdate] Ignoring invalid circuitBreaker rule", "rule", rule, "reason", err.Error())
+			continue
+		}
+		if _, supported := cbGenFuncMap[rule.Strategy]; !supported || rule.Resource != res {
+			// no breaker is built for it (unsupported strategy, or a rule of another resource): it must
+			// not be reported as loaded either
+			logging.Warn("[CircuitBreaker onResourceRuleUpdate] Ignoring the rule due to unsupported strategy or unmatched resource", "resource", res, "rule", rule)
 			continue
 		}
 		validResRules = append(validResRules, rule)
